@@ -390,9 +390,12 @@ func (w *worker[T, JobType]) goRemoveIdleWorkers() {
 			for _, node := range nodes[targetIdleWorkers:] {
 				if node.Value.GetLastUsed().Add(interval).Before(time.Now()) &&
 					!(node.Next() == nil && node.Prev() == nil) { // if both nil, it means the node is not in the list and not idle
-					w.pool.Remove(node)
-					node.Value.Stop()
-					w.pool.Cache.Put(node)
+					// the dispatcher may have popped the node since the check above:
+					// only the goroutine that unlinks a node owns it
+					if w.pool.Remove(node) {
+						node.Value.Stop()
+						w.pool.Cache.Put(node)
+					}
 				}
 			}
 		}
